@@ -5,16 +5,52 @@ import os
 
 VERIF = os.path.dirname(os.path.dirname(os.path.abspath(__file__)))
 
+def E(level, design, technique, text, note):
+    return dict(level=level, design=design, technique=technique, text=text, note=note)
+
+
+HELD = " Held on everything explored; absence of counter-examples beyond the stated bounds is not established."
+
 CHECKS = {
-    "C01": dict(
-        level="exploration", design="5/C01",
-        technique="property-based testing: Hypothesis-generated with-programs + systematic exit-shape table, shadow-stack oracle, 4 interpreters",
-        text="Generated-input search: thousands of generated generator/coroutine/async-generator bodies, each observed at every "
-             "suspension point on CPython 3.9-3.12, compared with a shadow stack kept by the managers themselves; plus a "
-             "systematic table of exit shapes. Held on everything explored; absence of counter-examples beyond the bounds "
-             "(nesting <= 5, <= 14 managers, <= 60 steps) is not established.",
-        note="Trusted: the harness managers' shadow bookkeeping; CPython's compiler as the source of bytecode shapes; "
-             "class-based managers only."),
+    "C01": E("exploration", "5/C01",
+             "property-based testing: Hypothesis-generated with-programs + systematic exit-shape table, shadow-stack oracle, CPython 3.9-3.12",
+             "Generated-input search: generated generator/coroutine/async-generator bodies, each observed at every suspension point "
+             "on CPython 3.9-3.12 through extract() and lowlevel.contexts_active_in_frame, compared with a shadow stack kept by the "
+             "managers themselves; plus a systematic table of exit shapes (bounds: nesting <= 5, <= 14 managers, <= 60 steps)." + HELD,
+             "Trusted: the harness managers' shadow bookkeeping; CPython's compiler as the source of bytecode shapes; class-based managers only."),
+    "C02": E("exploration", "5/C02",
+             "property-based testing: generated with-programs probed while running (from body call sites and from inside every __enter__/__exit__/__aenter__/__aexit__), shadow-stack oracle",
+             "Same program space as C01 for functions, generators, coroutines and async generators; the running frame is inspected "
+             "with extract_since() from nested code at every probe position and compared with the shadow stack at that instant." + HELD,
+             "Trusted: shadow bookkeeping of the harness managers; probes are nested Python calls on the same thread."),
+    "C03": E("exploration", "5/C03",
+             "property-based testing: generated await/yield-from chains; differential oracle = traceback of an exception thrown into the chain",
+             "Generated chains (depth 0-6, 10 link kinds, 4 outer kinds, 3 terminators, every suspension point) on CPython 3.9-3.12; "
+             "extract(x).frames must equal, as frame objects and line numbers, the path of a BaseException thrown into x right "
+             "after; leaf/root/exhausted/with_contexts clauses checked." + HELD,
+             "Trusted: CPython's traceback of the thrown exception and the templates' own unwinding log as ground truth."),
+    "C08": E("exploration", "5/C08",
+             "property-based testing: generated with-programs with 16 target forms x 3 layouts; oracle = renderer's record + ast comparison",
+             "Dynamic leg: every context reported for generated programs (suspended and running, 3.9-3.12) is matched to its with item "
+             "through obj; start_line must be the with-keyword line and varname must be None/ast-equal/local-bound per the property." + HELD,
+             "Trusted: the renderer's line/target record; ast.parse for expression equality; [x] == (x,) identified."),
+    "C10": E("exploration", "5/C10",
+             "model-based property testing: generated hook worlds vs an independent scope-based reference interpretation",
+             "Generated item trees and per-frame elaborate results (core space and order space) plus the fixpoint-guard family, executed "
+             "on 3.9-3.12; frames and leaf must equal a reference model written from the documentation (scopes, no depth counters)." + HELD,
+             "Trusted: the reference model's reading of the documented rules; cases the documentation leaves undefined are skipped and counted."),
+    "C16": E("exploration", "5/C16",
+             "property-based testing: generated chains (suspended and extracted from inside while running) and item trees; oracle = builder's ownership record",
+             "For every frame of generated chains (suspended and running) and of custom item trees: origin weak-referenceable and "
+             "extract_outermost(origin).pyframe is the frame; owner == origin for frames owned by suspended generators; "
+             "extract_outermost(x) == extract(x).frames[0] or raises with the recorded error. Includes the saved F9 crash history." + HELD,
+             "Trusted: the builder's record of which object owns which frame."),
+    "C20": E("exploration", "5/C20",
+             "property-based testing: generated with-programs observed in referents mode; shadow-stack over-approximation oracle",
+             "Generated programs observed at every suspension point with trickery disabled on 3.9-3.12; result must be an ordered "
+             "superset of the shadow stack whose only extras are the manager being entered/exited, with an is_exiting entry iff an "
+             "exit is in progress, and no warning." + HELD,
+             "Trusted: shadow bookkeeping; managers' exit methods are ordinary methods named __exit__/__aexit__ (documented precondition)."),
 }
 
 NOT_YET = "check not built yet at this commit (work in progress; see DESIGN.md section 5 for the planned generator and oracle)"
